@@ -190,7 +190,7 @@ pub fn svgdx_doc(rng: &mut Rng, with_root: bool) -> String {
             4 => body.push_str(&format!("  <rect {} {} {} {}/>\n", in_attr(rng, "xy", &xy), in_attr(rng, "wh", "5"), hattr(rng, "__", 5), hattr(rng, "data-x", 5))),
             5 => body.push_str(&format!("  <!--{}-->\n", comment_text(rng))),
             6 => { let css = format!("g > rect {{ fill: red; }} /* {} */", hostile(rng, 3)); body.push_str(&format!("  <style>{}</style>\n", in_text(rng, &css))) }
-            7 => body.push_str(&format!("  <g {}><rect {} {} {}/> {} </g>\n", if rng.chance(1, 2) { in_attr(rng, "class", "d-red  x") } else { let h = format!("d-red {}", hostile(rng, 3)); in_attr(rng, "class", &h) }, in_attr(rng, "xy", &xy), in_attr(rng, "wh", "3"), in_attr(rng, "id", &format!("i{i}")), htext(rng, 3))),
+            7 => body.push_str(&format!("  <g {}><rect {} {} {}/> {} </g>\n", if rng.chance(1, 2) { in_attr(rng, "class", "d-red  x") } else { let h = format!("d-red {}", hostile(rng, 3)); in_attr(rng, "class", &h) }, in_attr(rng, "xy", &xy), in_attr(rng, "wh", "3"), in_attr(rng, "id", &format!("i{i}")), if rng.chance(1, 2) { htext(rng, 3) } else { format!("{}\n    {} \n  {}", htext(rng, 3), htext(rng, 2), htext(rng, 2)) })),
             8 => body.push_str(&format!("  <title>{}</title>\n", htext(rng, 4))),
             _ => body.push_str(&format!("  <line {} {} {} {}/>\n", in_attr(rng, "xy1", &xy), in_attr(rng, "xy2", "40 40"), hattr(rng, "text", 3), in_attr(rng, "class", "d-arrow d-dash"))),
         }
